@@ -42,7 +42,7 @@ FC_ATOM = dict(A=139, B=149, C=151, D=157)
 FC_DEN = dict(A=163, B=167, C=173, D=191)
 KMODES = ("int", "frac", "float", "sym", "named")
 VKINDS = ("int", "frac", "float", "sym")
-PAIRS_QUICK = [("int", "int"), ("frac", "frac"), ("float", "float"), ("named", "int"), ("sym", "sym"), ("int", "sym"), ("sym", "int"), ("named", "sym")]
+PAIRS_QUICK = [("int", "int"), ("frac", "frac"), ("float", "float"), ("named", "int"), ("sym", "sym"), ("int", "sym"), ("sym", "int"), ("named", "sym"), ("float", "array")]
 PAIRS_ALL = [(k, v) for k in KMODES for v in VKINDS]
 PAIRS_THOROUGH = PAIRS_QUICK + [("named", "frac"), ("float", "sym")]
 PAIRS9 = [(r, p) for r in range(3) for p in range(3)]
@@ -111,6 +111,10 @@ def conc_of(vkind, S):
         return {s: Fr(ATOM[s], DEN[s]) for s in S}
     if vkind == "float":
         return {s: ATOM[s] / 4.0 for s in S}
+    if vkind == "array":  # one numpy array per substance (vectorised evaluation over two states); dyadic values
+        import numpy as np
+
+        return {s: np.array([ATOM[s] / 4.0, ATOM[s] / 2.0 + 1.0]) for s in S}
     return {s: _sym(s) for s in S}
 
 
@@ -130,7 +134,7 @@ def feed_of(vkind, S):
         return FR_ATOM, {s: FC_ATOM[s] for s in S}
     if vkind == "frac":
         return Fr(FR_ATOM, 193), {s: Fr(FC_ATOM[s], FC_DEN[s]) for s in S}
-    if vkind == "float":
+    if vkind in ("float", "array"):
         return FR_ATOM / 16.0, {s: FC_ATOM[s] / 2.0 for s in S}
     return _sym("fr"), {s: _sym("fc_" + s) for s in S}
 
@@ -138,7 +142,7 @@ def feed_of(vkind, S):
 def kparam_and_model(kmode, vkind, j):
     """(what is handed to Reaction as param, the value the model uses, extra variables)"""
     if kmode == "named":
-        v = kval(vkind, j)
+        v = kval("float" if vkind == "array" else vkind, j)
         return "k%d" % j, v, {"k%d" % j: v}
     v = kval(kmode, j)
     return v, v, {}
@@ -147,8 +151,13 @@ def kparam_and_model(kmode, vkind, j):
 def same(got, exp):
     """exact for int/Fraction/symbolic; 1e-13 relative as soon as a float is involved"""
     import sympy
+    import numpy as np
 
     try:
+        if isinstance(got, np.ndarray) or isinstance(exp, np.ndarray):
+            g, e = np.asarray(got, dtype=float), np.asarray(exp, dtype=float)
+            g, e = np.broadcast_arrays(g, e) if g.shape != e.shape and (g.ndim == 0 or e.ndim == 0) else (g, e)
+            return g.shape == e.shape and bool(np.all(np.abs(g - e) <= 1e-13 * np.maximum(np.abs(g), np.abs(e))))
         if isinstance(got, sympy.Basic) or isinstance(exp, sympy.Basic):
             d = sympy.expand(sympy.sympify(got) - sympy.sympify(exp))
             if d == 0:
@@ -376,6 +385,15 @@ def _check_system(res, idxs, rts, S, pairs, specs=SPECS, only=None):
                         got = rsys.rates(dict(fvars if fed else variables), **kw)
                     except Exception as e:
                         got = "EXC %s: %s" % (type(e).__name__, e)
+                    if vkind == "array":
+                        fresh = conc_of(vkind, S)
+                        changed = [s_ for s_ in S if not (conc[s_] == fresh[s_]).all()]
+                        if changed:
+                            k = "C03|ReactionSystem.rates|callers-arrays-modified"
+                            res.violation(k, "ReactionSystem(...).rates(array-valued concentrations): the caller's array(s) for %r now hold %r" % (changed, [conc[s_].tolist() for s_ in changed]),
+                                          dict(case, feed=feed, given=given, expect_key=k), [conc[s_].tolist() for s_ in changed], [fresh[s_].tolist() for s_ in changed])
+                            for s_ in changed:
+                                conc[s_][...] = fresh[s_]
                     key = "C03|ReactionSystem.rates|feed=%s|substance_keys=%s|k=%s" % (feed, "given" if given else "None", kmode)
                     if isinstance(got, str) and got.startswith("EXC KeyError") and fed and not given and any(s not in used for s in fed):
                         # a fed substance that occurs in no reaction: its rate is F*(c_feed - c), chempy has no entry to add it to
@@ -665,8 +683,13 @@ def _check_orders(res, za, zb, kmode, vkind):
 
 def _zsame(got, exp):
     import sympy
+    import numpy as np
 
     try:
+        if isinstance(got, np.ndarray) or isinstance(exp, np.ndarray):
+            g, e = np.asarray(got, dtype=float), np.asarray(exp, dtype=float)
+            g, e = np.broadcast_arrays(g, e) if g.shape != e.shape and (g.ndim == 0 or e.ndim == 0) else (g, e)
+            return g.shape == e.shape and bool(np.all(np.abs(g - e) <= 1e-13 * np.maximum(np.abs(g), np.abs(e))))
         if isinstance(got, sympy.Basic) or isinstance(exp, sympy.Basic):
             d = sympy.simplify(sympy.nsimplify(sympy.sympify(got) - sympy.sympify(exp), rational=True))
             if d == 0:
